@@ -349,7 +349,10 @@ fn main() {
             let path = arg(&args, "--scen").expect("--scen");
             let outp = arg(&args, "--out").expect("--out");
             let seed: u64 = arg(&args, "--seed").map(|s| s.parse().unwrap()).unwrap_or(1);
-            let arith = args.iter().any(|a| a == "--arith");
+            let arith = args.iter().any(|a| a == "--arith" || a == "--nonces");
+            if args.iter().any(|a| a == "--nonces") {
+                trace::LIGHT.store(true, std::sync::atomic::Ordering::Relaxed);
+            }
             let which = arg(&args, "--calls").unwrap_or("verify");
             let mut ctx = fmx::Ctx::new(seed);
             let f = std::io::BufReader::new(std::fs::File::open(path).expect("scenario file"));
